@@ -98,6 +98,17 @@ def _nested(arr, f):
     return [_nested(sub, f) for sub in arr]
 
 
+def _same(a, b):
+    if a is None or b is None:
+        return a is b
+    try:
+        if a != a and b != b:
+            return True
+    except Exception:
+        pass
+    return a == b
+
+
 def run_case(arg):
     """all executions of one abstract case -> (traces, n_calls, n_majority_results)"""
     from skactiveml.utils import compute_vote_vectors, ext_confusion_matrix, majority_vote
@@ -149,6 +160,26 @@ def run_case(arg):
                     w_arr = w_arr[:, 0]
                 w_in = w_arr.tolist() if form == "list" else w_arr
             conc = dict(conc, w=repr(w_in))
+            # an annotation loop re-uses its weight matrix while the label matrix fills up: before the observed
+            # call the same weight array serves a call on an earlier stage of y (some labels still missing);
+            # half of the remaining ndarray weights are passed read-only (a view of broadcast confidences)
+            if isinstance(w_in, np.ndarray) and w_in.dtype.kind == "f" and isinstance(y_in, np.ndarray):
+                pre = int(rng.integers(3))
+                if pre == 0:
+                    try:
+                        y_pre = y_in.copy()
+                        flat = y_pre.reshape(-1)
+                        idx = [k for k in range(flat.size) if rng.random() < 0.5]
+                        for k in idx:
+                            flat[k] = sent
+                        if idx and all(_same(flat[k], sent) for k in idx):      # (the dtype can hold the sentinel)
+                            _try(compute_vote_vectors, y_pre, w=w_in, classes=classes, missing_label=sent)
+                            conc = dict(conc, earlier_call_with_same_w="labels at flat positions %s still missing" % idx)
+                    except (TypeError, ValueError):
+                        pass
+                elif pre == 1:
+                    w_in.setflags(write=False)
+                    conc = dict(conc, w_read_only=True)
             # compute_vote_vectors
             ok, out = _try(compute_vote_vectors, y_in, w=w_in, classes=classes, missing_label=sent)
             n_calls += 1
